@@ -13,7 +13,10 @@
    identities; the ideal channel satisfies every law of C35 / C44 and the laws reject channels that lose an
    executable bit, keep empty directories apart, exchange merge parents, add a revision or move a tag;
    (b) random-walks it (-simulate) for the larger constants; the final state of every walk (done = TRUE) is a
-   history the harness materialises as a real branch. *)
+   history the harness may materialise as a real branch.  Pools of many cheap walks (GenWF, DropEmptyDirsLaws, and the
+   expensive laws on a sample: SampledLaws) are classified by the harness and replayed as a stratified sample, so that
+   rare situations (a move out of a populated directory -- PrefillDirs --, a merge whose parents cross the channel in
+   different rounds) are always among the replayed histories. *)
 EXTENDS HistoryChannel, TLC
 CONSTANTS TopNames,      \* names usable at the top level
           DirNames,      \* subset of TopNames that may be directories
